@@ -438,6 +438,188 @@ pub broadcast proof fn lemma_cenv_same(l: u32, ft: Tree, fe: Tree, l2: u32, a: T
 }
 pub broadcast group restrict_lemmas { lemma_cube_val_mk, lemma_cube_val_above, lemma_cenv_leaf, lemma_cenv_skip, lemma_cenv_same }
 
+// ---------- cube picking (C13) ----------
+pub open spec fn ff() -> Tree { Tree::Leaf(false) }
+/// rest of a literal set below its top literal (positive literal <=> else-child is false)
+pub open spec fn next_lit(a: Tree, b: Tree) -> Tree { if b == ff() { a } else { b } }
+pub open spec fn then_of(t: Tree) -> Tree { match t { Tree::Inner(_, a, _) => *a, _ => t } }
+pub open spec fn else_of(t: Tree) -> Tree { match t { Tree::Inner(_, _, b) => *b, _ => t } }
+/// polarity of level `l` in a literal set (conjunction of literals: positive literal = else-child is false,
+/// negative literal = then-child is false; the rest of the set hangs below the non-false child)
+pub open spec fn lit_pol(ls: Tree, l: int) -> Option<bool> decreases ls {
+    match ls {
+        Tree::Leaf(_) => None,
+        Tree::Inner(k, a, b) => if k as int == l { Some(*b == ff()) } else if (k as int) < l { lit_pol(next_lit(*a, *b), l) } else { None },
+    }
+}
+/// `r` is a cube picked from `t`: one node per visited level, the other child is false, never descends into a
+/// false child, and where both children are satisfiable and the literal set `ls` mentions the level, its
+/// polarity is followed.  (Levels not mentioned: either branch is allowed.)
+pub open spec fn pick_ok(t: Tree, ls: Tree, r: Tree) -> bool decreases t {
+    match t {
+        Tree::Leaf(_) => r == t,
+        Tree::Inner(l, a, b) => match r {
+            Tree::Leaf(_) => false,
+            Tree::Inner(rl, ra, rb) => rl == l && {
+                let free = *a != ff() && *b != ff() && lit_pol(ls, l as int) is Some;
+                ||| (*rb == ff() && *a != ff() && pick_ok(*a, ls, *ra) && (free ==> lit_pol(ls, l as int) == Some(true)))
+                ||| (*ra == ff() && *b != ff() && pick_ok(*b, ls, *rb) && (free ==> lit_pol(ls, l as int) == Some(false)))
+            },
+        },
+    }
+}
+pub open spec fn is_cube(r: Tree) -> bool decreases r {
+    match r {
+        Tree::Leaf(b) => b,
+        Tree::Inner(_, a, b) => (*b == ff() && is_cube(*a)) || (*a == ff() && is_cube(*b)),
+    }
+}
+/// consequences of pick_ok that the property states: nothing/false exactly for the unsatisfiable function,
+/// otherwise a cube that implies the function
+pub proof fn lemma_pick_ok_props(t: Tree, ls: Tree, r: Tree, n: int)
+    requires ok(t, n), pick_ok(t, ls, r),
+    ensures ok(r, n), top(r) >= top(t), (r == ff()) <==> (t == ff()), t != ff() ==> is_cube(r),
+        forall|env: Env| sem(r, env) ==> #[trigger] sem(t, env),
+    decreases t,
+{
+    match t {
+        Tree::Leaf(_) => {}
+        Tree::Inner(l, a, b) => {
+            match r {
+                Tree::Leaf(_) => {}
+                Tree::Inner(rl, ra, rb) => {
+                    assert(wf(ff()) && below(ff(), n) && top(ff()) == u32::MAX as int);
+                    assert forall|env: Env| !sem(ff(), env) by {}
+                    if *rb == ff() && *a != ff() && pick_ok(*a, ls, *ra) {
+                        lemma_pick_ok_props(*a, ls, *ra, n);
+                        assert(wf(r)); assert(below(r, n));
+                        assert forall|env: Env| sem(r, env) implies #[trigger] sem(t, env) by { assert(!sem(ff(), env)); assert(sem(*ra, env) ==> sem(*a, env)); }
+                    } else {
+                        lemma_pick_ok_props(*b, ls, *rb, n);
+                        assert(wf(r)); assert(below(r, n));
+                        assert forall|env: Env| sem(r, env) implies #[trigger] sem(t, env) by { assert(!sem(ff(), env)); assert(sem(*rb, env) ==> sem(*b, env)); }
+                    }
+                }
+            }
+        }
+    }
+}
+pub broadcast proof fn lemma_pick_ok_mk(l: u32, a: Tree, b: Tree, ls: Tree, rl: u32, ra: Tree, rb: Tree)
+    ensures #[trigger] pick_ok(mk(l, a, b), ls, mk(rl, ra, rb)) == (rl == l && {
+        let free = a != ff() && b != ff() && lit_pol(ls, l as int) is Some;
+        ||| (rb == ff() && a != ff() && pick_ok(a, ls, ra) && (free ==> lit_pol(ls, l as int) == Some(true)))
+        ||| (ra == ff() && b != ff() && pick_ok(b, ls, rb) && (free ==> lit_pol(ls, l as int) == Some(false)))
+    }),
+{}
+pub broadcast proof fn lemma_pick_ok_leaf(c: bool, ls: Tree, r: Tree)
+    ensures #[trigger] pick_ok(Tree::Leaf(c), ls, r) == (r == Tree::Leaf(c)),
+{}
+pub broadcast proof fn lemma_pick_ok_ok(t: Tree, ls: Tree, r: Tree, n: int)
+    requires wf(t), #[trigger] below(t, n), #[trigger] pick_ok(t, ls, r),
+    ensures ok(r, n), top(r) >= top(t), (r == ff()) <==> (t == ff()),
+{
+    lemma_pick_ok_props(t, ls, r, n);
+}
+pub broadcast proof fn lemma_lit_pol_mk(k: u32, a: Tree, b: Tree, l: int)
+    ensures #[trigger] lit_pol(mk(k, a, b), l) == (if k as int == l { Some(b == ff()) } else if (k as int) < l { lit_pol(next_lit(a, b), l) } else { None }),
+{}
+pub broadcast proof fn lemma_lit_pol_leaf(c: bool, l: int)
+    ensures #[trigger] lit_pol(Tree::Leaf(c), l) == None::<bool>,
+{}
+/// the literal set may be replaced by any set that agrees on all levels the diagram can still visit
+pub proof fn lemma_pick_ok_transfer(t: Tree, ls1: Tree, ls2: Tree, r: Tree)
+    requires wf(t), pick_ok(t, ls1, r), forall|l: int| l >= top(t) ==> #[trigger] lit_pol(ls1, l) == lit_pol(ls2, l),
+    ensures pick_ok(t, ls2, r),
+    decreases t,
+{
+    match t {
+        Tree::Leaf(_) => {}
+        Tree::Inner(l, a, b) => {
+            match r {
+                Tree::Leaf(_) => {}
+                Tree::Inner(rl, ra, rb) => {
+                    assert(lit_pol(ls1, l as int) == lit_pol(ls2, l as int));
+                    if *rb == ff() && *a != ff() && pick_ok(*a, ls1, *ra) { lemma_pick_ok_transfer(*a, ls1, ls2, *ra); }
+                    if *ra == ff() && *b != ff() && pick_ok(*b, ls1, *rb) { lemma_pick_ok_transfer(*b, ls1, ls2, *rb); }
+                }
+            }
+        }
+    }
+}
+/// literal sets below `u`: dropping literals above level `u` (following the non-false child) does not change lookups at or below `u`
+pub open spec fn lpopped(ls: Tree, until: int) -> Tree decreases ls {
+    match ls {
+        Tree::Leaf(_) => ls,
+        Tree::Inner(k, a, b) => if (k as int) >= until { ls } else { lpopped(next_lit(*a, *b), until) },
+    }
+}
+pub proof fn lemma_lit_pol_lpopped(ls: Tree, until: int, l: int)
+    requires l >= until,
+    ensures lit_pol(lpopped(ls, until), l) == lit_pol(ls, l),
+    decreases ls,
+{
+    match ls {
+        Tree::Leaf(_) => {}
+        Tree::Inner(k, a, b) => { if (k as int) < until { lemma_lit_pol_lpopped(next_lit(*a, *b), until, l); } }
+    }
+}
+/// transfer along one step of the recursion: the callee saw the literal set `ls1`, where `ls1` agrees with
+/// `lpopped(ls, u)` for some `u <= top(t)`
+pub broadcast proof fn lemma_pick_ok_lpopped(t: Tree, ls: Tree, u: int, r: Tree)
+    requires wf(t), u <= top(t), #[trigger] pick_ok(t, lpopped(ls, u), r),
+    ensures pick_ok(t, ls, r),
+{
+    assert forall|l: int| l >= top(t) implies #[trigger] lit_pol(lpopped(ls, u), l) == lit_pol(ls, l) by { lemma_lit_pol_lpopped(ls, u, l); }
+    lemma_pick_ok_transfer(t, lpopped(ls, u), ls, r);
+}
+/// one recursion step: the callee saw the rest `x` of the literal set below the literal at the current level
+pub broadcast proof fn lemma_pick_ok_step(t: Tree, ls: Tree, u: int, x: Tree, r: Tree)
+    requires wf(t), wf(ls), (#[trigger] lpopped(ls, u)) is Inner, top(lpopped(ls, u)) < top(t),
+        x == next_lit(then_of(lpopped(ls, u)), else_of(lpopped(ls, u))), #[trigger] pick_ok(t, x, r),
+    ensures pick_ok(t, ls, r),
+{
+    let p = lpopped(ls, u);
+    lemma_lpopped_wf(ls, u);
+    assert forall|l: int| l >= top(t) implies #[trigger] lit_pol(x, l) == lit_pol(ls, l) by {
+        lemma_lit_pol_lpopped(ls, u, l);
+    }
+    lemma_pick_ok_transfer(t, x, ls, r);
+}
+pub broadcast proof fn lemma_lpopped_mk(k: u32, a: Tree, b: Tree, until: int)
+    ensures #[trigger] lpopped(mk(k, a, b), until) == (if (k as int) >= until { mk(k, a, b) } else { lpopped(next_lit(a, b), until) }),
+{}
+pub broadcast proof fn lemma_lpopped_ok(ls: Tree, until: int, n: int)
+    requires #[trigger] below(ls, n), wf(ls),
+    ensures below(#[trigger] lpopped(ls, until), n), wf(lpopped(ls, until)), top(lpopped(ls, until)) >= until || lpopped(ls, until) is Leaf,
+    decreases ls,
+{
+    match ls {
+        Tree::Leaf(_) => {}
+        Tree::Inner(k, a, b) => { if (k as int) < until { lemma_lpopped_ok(next_lit(*a, *b), until, n); } }
+    }
+}
+pub broadcast proof fn lemma_lit_pol_lpopped_b(ls: Tree, until: int, l: int)
+    requires l >= until,
+    ensures lit_pol(#[trigger] lpopped(ls, until), l) == #[trigger] lit_pol(ls, l),
+{
+    lemma_lit_pol_lpopped(ls, until, l);
+}
+pub proof fn lemma_lpopped_wf(ls: Tree, until: int)
+    requires wf(ls),
+    ensures wf(lpopped(ls, until)), top(lpopped(ls, until)) >= until || lpopped(ls, until) is Leaf,
+    decreases ls,
+{
+    match ls {
+        Tree::Leaf(_) => {}
+        Tree::Inner(k, a, b) => { if (k as int) < until { lemma_lpopped_wf(next_lit(*a, *b), until); } }
+    }
+}
+pub broadcast proof fn lemma_lpopped_id(ls: Tree, until: int)
+    requires top(ls) >= until,
+    ensures #[trigger] lpopped(ls, until) == ls,
+{}
+pub broadcast group pick_lemmas { lemma_pick_ok_mk, lemma_pick_ok_leaf, lemma_pick_ok_ok, lemma_lit_pol_mk, lemma_lit_pol_leaf, lemma_pick_ok_lpopped, lemma_pick_ok_step, lemma_lit_pol_lpopped_b, lemma_lpopped_mk, lemma_lpopped_id, lemma_lpopped_ok }
+
 // ---------- environment stubs (ASSUMED manager contract) ----------
 pub type LevelNo = u32;
 pub type VarNo = u32;
@@ -681,7 +863,7 @@ impl BDDOp {
 
 mod apply_rec {
 use super::*;
-broadcast use {leaf_lemmas, quant_lemmas, quant2_lemmas, restrict_lemmas, subst_lemmas};
+broadcast use {leaf_lemmas, quant_lemmas, quant2_lemmas, restrict_lemmas, subst_lemmas, pick_lemmas};
 //@fn file=crates/oxidd-rules-bdd/src/simple/apply_rec.rs path=fn:apply_not nodecr expect=R5:1 props=C02,C06
 //@spec
     requires edge_ok::<M::Edge>(), ok(f.view(), manager.num_levels_spec()),
@@ -795,6 +977,26 @@ where M: Manager<Terminal = BDDTerminal> + HasApplyCache<M, BDDOp>, M::InnerNode
 //@spec
     requires edge_ok::<M::Edge>(), ok(root.view(), manager.num_levels_spec()), ok(vars.view(), manager.num_levels_spec()),
     ensures res is Ok ==> restrict_post(root.view(), vars.view(), manager.num_levels_spec(), res->Ok_0.view()),
+//@end
+//@fn file=crates/oxidd-rules-bdd/src/simple/apply_rec.rs path=fn:literal_set_pop ret=r props=C13
+//@spec
+    requires wf(set.view()),
+    ensures r.view() == lpopped(set.view(), until as int),
+    decreases set.view(),
+//@end
+//@fn file=crates/oxidd-rules-bdd/src/simple/apply_rec.rs path=impl:BooleanFunction~for~BDDFunction<F>/fn:pick_cube_dd_edge/fn:inner rename=pick_cube_dd_edge__inner props=C13
+//@spec
+    requires edge_ok::<M::Edge>(), ok(edge.view(), manager.num_levels_spec()),
+        // the choice function may be consulted only with a node whose two children are both satisfiable, and with that node's level
+        forall|mm: &M, ee: &M::Edge, l: LevelNo| (ee.view() matches Tree::Inner(k, a, b) && k == l && *a != ff() && *b != ff()) ==> #[trigger] choice.requires((mm, ee, l)),
+    ensures res is Ok ==> pick_ok(edge.view(), Tree::Leaf(true), res->Ok_0.view()) && ok(res->Ok_0.view(), manager.num_levels_spec()),
+    decreases edge.view(),
+//@end
+//@fn file=crates/oxidd-rules-bdd/src/simple/apply_rec.rs path=impl:BooleanFunction~for~BDDFunction<F>/fn:pick_cube_dd_set_edge/fn:inner rename=pick_cube_dd_set_edge__inner props=C13
+//@spec
+    requires edge_ok::<M::Edge>(), ok(edge.view(), manager.num_levels_spec()), ok(literal_set.view(), manager.num_levels_spec()),
+    ensures res is Ok ==> pick_ok(edge.view(), literal_set.view(), res->Ok_0.view()) && ok(res->Ok_0.view(), manager.num_levels_spec()),
+    decreases edge.view(),
 //@end
 //@fn file=crates/oxidd-rules-bdd/src/simple/apply_rec.rs path=impl:BooleanFunction~for~BDDFunction<F>/fn:and_edge props=C02
 //@header
